@@ -18,12 +18,12 @@ class Leaf:
     """what the lifted function returns: the leaf it saw and the companion it was given"""
     def __init__(self, a, b): self.a = a; self.b = b
 
-def struct(c, name, depth, leafgen, types = ('list', 'tuple', 'dict')):
+def struct(c, name, depth, leafgen, types = ('list', 'tuple', 'dict'), dkeys = 'ab'):
     k = c.pick(name + '.t', ['leaf'] + list(types)) if depth > 0 else 'leaf'
     if k == 'leaf': return leafgen(name)
     n = c.choice(name + '.n', 3)
-    items = [struct(c, '%s.%d' % (name, i), depth - 1, leafgen, types) for i in range(n)]
-    return items if k == 'list' else tuple(items) if k == 'tuple' else dict(zip('ab', items))
+    items = [struct(c, '%s.%d' % (name, i), depth - 1, leafgen, types, dkeys) for i in range(n)]
+    return items if k == 'list' else tuple(items) if k == 'tuple' else dict(zip(dkeys, items))                 # dkeys = 'ba': keys inserted in an order that is not the sorted one
 
 def is_cont(x): return isinstance(x, (list, tuple, dict))
 
@@ -61,11 +61,11 @@ def companion(c, x, kind):
     if kind == 'overlap-dict': return dict(a = c.int('comp.a', -9, 9), zz = c.int('comp.zz', -9, 9))      # as many keys as a 2-key dict, only one in common
     return dict(zz = c.int('comp.zz', -9, 9))                                                 # a dict with other keys
 
-def h_lift(depth, kind, bykw):
+def h_lift(depth, kind, bykw, dkeys = 'ab'):
     def h(c):
         from pyg_base import loop
         f = loop(list, tuple, dict)(lambda a, b = None: Leaf(a, b))
-        x = struct(c, 'x', depth, lambda n: c.int(n, -9, 9))
+        x = struct(c, 'x', depth, lambda n: c.int(n, -9, 9), dkeys = dkeys)
         comp = companion(c, x, kind)
         if is_cont(x) and depth >= 2: c.cover('nested', any(is_cont(v) for v in (x.values() if isinstance(x, dict) else x)))
         r = f(x, b = comp) if bykw else f(x, comp)
@@ -239,6 +239,10 @@ def obligations(tier):
             for i, t in enumerate(tops):
                 obs.append(Ob('lift.%s.%s.%s' % (kind, 'kw' if bykw else 'pos', t), h_lift(D if kind != 'same-shape' or q else D, kind, bykw), pins = {'x.t': i}, budget_s = 300 if q else 2400,
                               desc = 'loop(list,tuple,dict)(f)(x, companion): %s companion passed %s, x a %s of depth <= %d' % (kind, 'by keyword' if bykw else 'positionally', t, D)))
+    for kind in ['scalar', 'same-shape']:
+        for bykw in (False, True):
+            obs.append(Ob('lift.dict-key-order.%s.%s' % (kind, 'kw' if bykw else 'pos'), h_lift(2, kind, bykw, dkeys = 'ba'), pins = {'x.t': 3}, budget_s = 300,
+                          desc = 'x a dict (possibly of dicts) whose keys were inserted in non-sorted order: the result keeps the insertion order of x'))
     for i, t in enumerate(tops):
         obs.append(Ob('lift.no-companion.%s' % t, h_lift_nocomp(D), pins = {'x.t': i}, budget_s = 300 if q else 2400, desc = 'lifted unary function, x a %s' % t))
     for fn in ['lower', 'upper', 'strip', 'proper', 'replace', 'split', 'as_float']:
